@@ -401,7 +401,9 @@ class Runtime:
                     # subject): default calls must not care
                     from onnxscript.onnx_types import FLOAT
 
-                    for kw in ({"ir_version": 8}, {"io_types": FLOAT}, {"opset_version": 17}, {"opset_version": 21, "io_types": FLOAT}):
+                    kws = [{"ir_version": 8}, {"io_types": FLOAT}, {"opset_version": 17}, {"opset_version": 21, "io_types": FLOAT}]
+                    rot = (int(op["id"][:4], 16) + len(k)) % len(kws)   # which of them comes first differs per operation / function
+                    for kw in kws[rot:] + kws[:rot]:
                         try:
                             f.to_model_proto(**kw)
                         except INJECTED:
